@@ -4,4 +4,4 @@ From Coq Require Import ZArith ExtrOcamlBasic ExtrOcamlString.
 From HidV Require Import GenTables OpTables LowerBoolModel.
 
 Extraction "../ocaml/hidlower_core.ml"
-  lower_branch if_block value_lowering value_lowering_keep print_aline is_you_env with_top add_label Z.add Z.mul Z.opp.
+  lower_branch if_block value_lowering value_lowering_keep declare_bool assign_bool lower_defeat temps_b print_aline is_you_env with_top add_label Z.add Z.mul Z.opp.
